@@ -82,7 +82,11 @@ pub enum ReadPlan {
     ThenZeroLengthRead { size: usize, limit: usize },
     /// the whole body through another method of `Read` than read(): 0 = read_vectored (two
     /// slices of 1500 bytes per call), 1 = read_exact(declared length) then a read that must
-    /// return 0, 2 = the bytes() iterator, 3 = read_to_string
+    /// return 0, 2 = the bytes() iterator, 3 = read_to_string, 4 = two bytes, then a read with an
+    /// EMPTY buffer (which says nothing about the end of the body), then on to the end with
+    /// 7-byte buffers, 5 = an empty-buffer read first, then read_to_end; 1000 + n = up to two
+    /// bytes, an empty-buffer read, then exactly the rest of the first n bytes with 7-byte
+    /// buffers, and no further read (end-of-stream is never observed)
     OtherMethod { method: usize },
 }
 
@@ -398,6 +402,72 @@ pub fn read_body(rq: &mut Request, plan: &ReadPlan, ob: &mut ReqObs) {
                             }
                             ob.body = v;
                         }
+                    }
+                }
+                m if *m >= 1000 => {
+                    let n = *m - 1000;
+                    let mut buf = [0u8; 7];
+                    let first = n.min(2);
+                    if first > 0 {
+                        match r.read(&mut buf[..first]) {
+                            Ok(k) => ob.body.extend_from_slice(&buf[..k]),
+                            Err(e) => ob.read_error = Some(format!("{:?}", e.kind())),
+                        }
+                    }
+                    ob.reads += 1;
+                    if let Err(e) = r.read(&mut []) {
+                        ob.read_error = Some(format!("{:?}", e.kind()));
+                    }
+                    while ob.body.len() < n && ob.read_error.is_none() {
+                        let want = (n - ob.body.len()).min(7);
+                        match r.read(&mut buf[..want]) {
+                            Ok(0) => {
+                                ob.eof_seen = true;
+                                break;
+                            }
+                            Ok(k) => ob.body.extend_from_slice(&buf[..k]),
+                            Err(e) => ob.read_error = Some(format!("{:?}", e.kind())),
+                        }
+                    }
+                }
+                4 | 5 => {
+                    let mut buf = [0u8; 7];
+                    let mut fail = |e: std::io::Error, ob: &mut ReqObs| ob.read_error = Some(format!("{:?}", e.kind()));
+                    if *method == 4 {
+                        match r.read(&mut buf[..2]) {
+                            Ok(n) => ob.body.extend_from_slice(&buf[..n]),
+                            Err(e) => fail(e, ob),
+                        }
+                    }
+                    ob.reads += 1;
+                    if let Err(e) = r.read(&mut []) {
+                        fail(e, ob);
+                    }
+                    if *method == 4 {
+                        loop {
+                            match r.read(&mut buf) {
+                                Ok(0) => {
+                                    ob.eof_seen = true;
+                                    ob.eof_sticky = true;
+                                    break;
+                                }
+                                Ok(n) => ob.body.extend_from_slice(&buf[..n]),
+                                Err(e) => {
+                                    fail(e, ob);
+                                    break;
+                                }
+                            }
+                        }
+                    } else {
+                        let mut v = Vec::new();
+                        match r.read_to_end(&mut v) {
+                            Ok(_) => {
+                                ob.eof_seen = true;
+                                ob.eof_sticky = true;
+                            }
+                            Err(e) => fail(e, ob),
+                        }
+                        ob.body.extend_from_slice(&v);
                     }
                 }
                 2 => {
